@@ -94,7 +94,7 @@ func doStream(srv *onet.Server, c *streamConv) (o streamObs) {
 		}
 		var got []obsReply
 		for {
-			conn.SetReadDeadline(time.Now().Add(8 * time.Second))
+			conn.SetReadDeadline(time.Now().Add(20 * time.Second))
 			_, buf, err := conn.ReadMessage()
 			if err != nil {
 				o.Replies = append(o.Replies, got)
@@ -268,7 +268,8 @@ type stepOut struct {
 	// through; replaced by the final record of the step unless the process dies first
 	Provisional bool `json:"provisional,omitempty"`
 	Died        bool `json:"died,omitempty"`
-	// Unreached: the schedule point the step needs does not exist in this tree
+	// Unreached: the worker never came to the schedule point client.parAccept (recorded
+	// for the reader; the observation is evaluated as it is)
 	Unreached bool `json:"unreached,omitempty"`
 }
 
@@ -345,7 +346,7 @@ func classifyParErr(err error) obsReply {
 	return classifyWS(nil, err)
 }
 
-func runPar(in *input, emit func(interface{})) (discard bool, hung bool) {
+func runPar(in *input, emit func(interface{}), started *bool) (discard bool, hung bool) {
 	registerOnce.Do(func() {
 		log.SetDebugVisible(0)
 		log.OutputToBuf()
@@ -378,7 +379,7 @@ func runPar(in *input, emit func(interface{})) (discard bool, hung bool) {
 	} else {
 		cl = onet.NewClient(suite, svcName)
 	}
-	cl.ReadTimeout = 20 * time.Second
+	cl.ReadTimeout = 45 * time.Second
 	defer cl.Close()
 	idx := func(si *network.ServerIdentity) int {
 		for i, s := range sis {
@@ -389,6 +390,7 @@ func runPar(in *input, emit func(interface{})) (discard bool, hung bool) {
 		return -1
 	}
 
+	*started = true
 	for _, st := range p.Steps {
 		if !st.Call {
 			out := make([]obsReply, len(st.Send))
@@ -559,7 +561,7 @@ func runPar(in *input, emit func(interface{})) (discard bool, hung bool) {
 					// its worker must be at the schedule point before anybody else answers
 					select {
 					case <-hArr:
-					case <-time.After(3 * time.Second):
+					case <-time.After(10 * time.Second):
 					}
 				}
 				waiting = append(waiting[:best], waiting[best+1:]...)
@@ -614,15 +616,15 @@ func runPar(in *input, emit func(interface{})) (discard bool, hung bool) {
 // reading their reply) or the call has returned
 func settlePar(returned chan struct{}) {
 	stable, last := 0, ""
-	for t := 0; t < 400; t++ {
+	for t := 0; t < 1500; t++ {
 		time.Sleep(2 * time.Millisecond)
 		select {
 		case <-returned:
 			return
 		default:
 		}
-		_, blocked, fp := sendGoroutines()
-		if blocked && fp == last && fp != "" {
+		n, blocked, fp := sendGoroutines()
+		if blocked && fp == last && (fp != "" || (n == 0 && t > 10)) {
 			stable++
 			if stable >= 3 {
 				return
@@ -668,11 +670,7 @@ func parCase(in *input, lines []json.RawMessage, died string) lib.Case {
 	} else if crashed && len(obs) < len(p.Steps) && died != "hung" {
 		obs = append(obs, stepOut{Raw: died, Died: true})
 	}
-	for _, o := range obs {
-		if o.Unreached {
-			return lib.Case{Discard: true}
-		}
-	}
+	// a hold point that was not reached is part of the observation, not a reason to drop the case
 	steps := p.Steps[:len(obs)]
 	bs := make([]string, len(p.Nodes))
 	for i, b := range p.Nodes {
@@ -742,9 +740,7 @@ func parCase(in *input, lines []json.RawMessage, died string) lib.Case {
 	if free {
 		class += "-free"
 	}
-	if crashed {
-		class += "-crash"
-	}
+	class += endSuffix(died)
 	coq := fmt.Sprintf("CPar %s %s\n    %s\n    %s", lib.List(bs), lib.Bool(p.Keep), lib.List(ss), lib.List(os))
 	return lib.Case{Coq: coq, Class: class, Obs: obs, Nontrivial: len(steps) > 0}
 }
